@@ -3,7 +3,11 @@
 proofs (Properties_C02.v) + correspondence (extracted Q model vs remora solve()/decomposition classes, default
 kernels and OpenBLAS bindings, exactly representable systems => equality) + spec monitors computed in
 Python with exact rational arithmetic on the implementation's own output (residuals, L L^T, P A = L U,
-Q D Q^T, Q^T Q, least-squares normal equations, inv(A)%B == solve)."""
+Q D Q^T, Q^T Q, least-squares normal equations, inv(A)%B == solve).
+Pivoted LU: the model (getrf_block/getrf_recursive/getrf/lu_solve of C02BlkModel.v) is compared EXACTLY (factor, pivot vector,
+exception) on matrices whose whole run is exactly representable (gen_lu_exact: unique pivots, ties, singular), and with
+pivots exact / factor 1e-12 on gen_lu_struct; blocked potrf (potrf_rec) incl. the return value and the matrix left behind
+on matrices that are not positive definite."""
 import os, sys, re, math
 from fractions import Fraction as Fr
 sys.path.insert(0, os.path.dirname(os.path.abspath(__file__)))
@@ -435,6 +439,7 @@ def main():
                                     "Python fractions (exact evaluation of the defining equations on the implementation's output)"]
     ck.assumptions = ["systems of the documented kinds: non-singular triangular, symmetric positive definite (semi-definite for the semi tag), full rank for indefinite_full_rank; condition <= 1e8 (1e3 for conjugate gradient, whose stopping rule is an absolute 1e-10)",
                       "exact stream: integer factors with power-of-two or unit diagonals so that every intermediate value is a small dyadic rational (float arithmetic exact in any summation order)",
+                      "pivoted LU exact stream: matrices built so that every intermediate value of the (blocked or unblocked) elimination is a small dyadic rational (checked by an exact reference run in the generator)",
                       "right-hand sides with at least one column; zero right-hand sides are not generated for conjugate gradient (see report)"]
     ck.proofs()
     model = extract_model(PID, "C02Extract.v", "c02_driver.ml")
@@ -500,7 +505,9 @@ def main():
     ck.cov["rule"] = ("solve(A,b,tag,side) for 8 tags x left/right x row/column-major A x vector / row-major / column-major matrix right-hand side, sizes 1..12 "
                       "(plus sizes around the blocking threshold 32; up to 40 in thorough), exact stream (integer factors, power-of-two/unit diagonals: equality with the Q model and zero residual), "
                       "random well-conditioned stream (condition <= 1e8, residual <= 64 n eps (|A||x|+|b|)), rank-deficient semi-definite stream (normal equations); "
-                      "decomposition classes (Cholesky incl. rank-one update, pivoted LU, symmetric eigen, pivoted Cholesky), inv(A)%B vs solve; both default kernels and -DREMORA_USE_CBLAS; non-trivial = size >= 2")
+                      "decomposition classes (Cholesky incl. rank-one update, pivoted LU, symmetric eigen, pivoted Cholesky), inv(A)%B vs solve; "
+                      "pivoted LU exact stream (A = P^T L U, dyadic L with |l| <= 1/2 or ties |l| = 1, power-of-two pivots, one zero pivot for the singular cases; sizes 1..12 and around 4/32: "
+                      "factor, pivot vector and exception equal to the Q model), gen_lu_struct (pivot vector equal, factor 1e-12), potrf on non-positive-definite matrices (return value and matrix left behind equal to the model); both default kernels and -DREMORA_USE_CBLAS; non-trivial = size >= 2")
     ck.cov["samples"] = [c[1][:200] for c in cases[:2]]
     ck.notes["case_mix"] = {" ".join(k): v for k, v in sorted(cover.items())}
     ck.notes["builds"] = list(builds)
